@@ -61,10 +61,15 @@ OwnFails(e) ==
         [] e.op = "decode" -> Tag(okB, "C10.bounds") \o Tag(okV /\ (IsErr(DecodeFrame(Cells(bufs[e.b + 1], e.lo, e.hi))) <=> e.err # ""), "C10.state")
         [] OTHER -> Tag(okB /\ okV, "C10.state")
 
-ReuseFails(e) == (IF e.err2 # "" \/ e.errfresh # "" THEN Tag(e.err2 = e.errfresh, "C10.reuse")
+ReuseBase(e) == (IF e.err2 # "" \/ e.errfresh # "" THEN Tag(e.err2 = e.errfresh, "C10.reuse")
                   ELSE Tag(e.used = e.fresh, "C10.reuse"))
                  \* the value the caller kept from the first decode is not rewritten by the second decode into the same variable
                  \o (IF "kept1" \in DOMAIN e /\ e.err1 = "" THEN Tag(e.kept2 = e.kept1, "C10.reuse") ELSE <<>>)
+ReuseFails(e) == ReuseBase(e)
+                 \* an application-layer command decoded into a used value is still the command of its bytes in its direction (C18)
+                 \o (IF "al" \in DOMAIN e /\ (IF e.err2 # "" \/ e.errfresh # "" THEN e.err2 # e.errfresh ELSE e.used # e.fresh) THEN <<"C18.reuse">> ELSE <<>>)
+                 \* no decode of the history may panic, whatever the value held before (C09)
+                 \o (IF e.err1 = "panic" \/ e.err2 = "panic" \/ e.errfresh = "panic" THEN <<"C09.total">> ELSE <<>>)
 \* a decoder given bufs[lo..hi) must leave the WHOLE backing array (incl. the spare capacity behind hi) untouched
 SubsliceFails(e) == Tag(e.post = e.pre, "C10.bounds")
 BandFails(e) == Tag(e.after = e.before /\ e.fresh = e.before, "C10.band")
